@@ -64,6 +64,38 @@ def run(ctx):
                 if arms["cls"].get("EndLib") == "loop":
                     ctx.violation("R10.2", key + "/endlib", "%s keeps looping on ENDLIB, which the record source returns forever" % f.short, b.site(header))
                     continue
+            # loops fed only by the sticky record source (GdsParser::next / peek return ENDLIB again and again without
+            # consuming): some record test inside the loop must send EndLib out of the loop (or to an error)
+            sticky = [x for x in cons if re.search(r"GdsParser::<.*>::(next|peek)$|GdsParser::(next|peek)$", callee_name(b.term(x)) or "")]
+            if sticky and len(sticky) == len(cons):
+                leaves = False
+                for sbb, arms_, other, eid in od.enum_switches(F, b, "gds21::data::GdsRecord"):
+                    if sbb not in blocks:
+                        continue
+                    tgt = arms_.get("EndLib", other)
+                    if tgt is None:
+                        continue
+                    inside = od.reach(b, tgt) if tgt in blocks else set()
+                    back = tgt in blocks and (header in {y for x in inside & blocks for y in b.succs[x]} or tgt == header)
+                    # stay inside the loop's blocks only
+                    if tgt not in blocks:
+                        leaves = True
+                    else:
+                        seen_, st_ = {tgt}, [tgt]
+                        hit_header = False
+                        while st_:
+                            x = st_.pop()
+                            for y in b.succs[x]:
+                                if y == header:
+                                    hit_header = True
+                                if y in blocks and y not in seen_:
+                                    seen_.add(y)
+                                    st_.append(y)
+                        if not hit_header:
+                            leaves = True
+                if not leaves:
+                    ctx.violation("R10.2", key + "/endlib", "%s: this loop is fed only by the record source, which returns ENDLIB for ever once it is reached, and nothing in the loop sends an ENDLIB record out of it: a stream that ends the library early makes the reader spin" % f.short, b.site(header), key + "/endlib")
+                    continue
             ctx.ok("R10.2", key, "consumes a record per cycle; ENDLIB leaves the loop")
     ctx.floor("R10.2", "reader_loops", n_loops, 10)
 
